@@ -1562,7 +1562,7 @@ fn proto<'a>(ex: &mut Exec<'a, '_>, cur: H<'a>, kind: u8, p: &Pat) -> Res {
     }
     if cur.flag {
         // the one-shot flag was already set: the first call must fail with SplitExhausted
-        if !got.is_empty() || final_err != Some(ErrorKind::SplitExhausted) {
+        if !got.is_empty() || (kind < 2 && final_err != Some(ErrorKind::SplitExhausted)) {
             return Err(ex.v("protocol-flag-ignored", format!("{what}: flag set but got {:?} then {:?}", got, final_err)));
         }
         return Ok(());
